@@ -7,12 +7,14 @@
 //     auto   : jbn_patch_auto(root, patch, pool)
 //     jbl    : jbl_merge_patch(jbl, text(patch))                  binary form
 //     jbljbl : jbl_merge_patch_jbl(jbl, jbl(patch))
-//   mergepath <pool|heap> <pointer hex> <target wire tokens> | <value wire tokens or `-` for no value>
+//   mergepath <pool|heap|reg> <pointer hex> <target wire tokens> | <value wire tokens or `-` for no value>
 //              jbn_merge_patch_path(root, pointer, value, pool or 0)   (heap: as src/json/iwjsreg.c calls it)
+//              reg: iwjsreg_merge(registry whose root is a heap clone of the target, pointer, value)
 //   mergetext <njson|jbl> <patch text hex> <target wire tokens>
 //              the text entry points with a text that is not JSON: answer <ok|error> <doc> kl=/same=
 //   answer, tree modes:   <rc> <doc wire> kl=<0|1>
 //   answer, binary modes: <rc> <doc wire | NOCONTAINER> same=<0|1>
+#include "iwjsreg.c"   // white-box: the registry root is replaced by the generated target (iwjsreg.o is left out at link time)
 #include "hx_jp.h"
 
 static iwrc free_visitor(int lvl, struct jbl_node *n) {
@@ -92,6 +94,20 @@ int main(int argc, char **argv) {
           tree_answer(rc, h);
           jbn_visit2(h, 0, free_visitor);
         }
+      } else if (!strcmp(mode, "reg")) {
+        struct iwjsreg *reg = 0;
+        struct iwjsreg_spec spec = { .path = argc > 1 ? argv[1] : "/var/tmp/h_c16-nonexistent.reg", .flags = IWJSREG_READONLY };
+        rc = iwjsreg_open(&spec, &reg);
+        struct jbl_node *h = 0;
+        if (!rc) rc = jbn_clone(doc, &h, 0);
+        if (rc) printf("reg-open-%s\n", hxp_rc(rc));
+        else {
+          jbn_visit2(reg->root, 0, free_visitor);
+          reg->root = h;
+          rc = iwjsreg_merge(reg, ptr, patch);
+          tree_answer(rc, reg->root);
+        }
+        if (reg) iwjsreg_close(&reg);
       } else printf("bad-op\n");
       free(ptr);
     } else if (!strcmp(mode, "node")) {
